@@ -30,6 +30,10 @@ type Ctx struct {
 
 	Sched *Sched
 
+	// DrawFn, when set, replaces the tape for map-order and select-order
+	// draws (used to enumerate iteration orders exhaustively).
+	DrawFn func(n int, label string) int
+
 	TraceOn bool
 	Lines   []string
 
